@@ -297,6 +297,163 @@ def w2_defaults(chk, op):
     chk.count("mutable_defaults_on_open_path", n)
 
 
+IMMUTABLE_CTORS = {"str", "int", "float", "bool", "bytes", "tuple", "frozenset", "len", "repr", "format", "hash", "complex", "round", "abs", "min", "max", "sum", "ord", "chr", "divmod"}
+IMMUTABLE_METHODS = {"join", "format", "lower", "upper", "strip", "lstrip", "rstrip", "replace", "removeprefix", "removesuffix", "zfill", "ljust", "rjust", "title", "casefold", "capitalize",
+                     "encode", "decode", "isoformat", "strftime", "hexdigest", "digest", "group", "startswith", "endswith", "total_seconds", "timestamp", "date", "time", "toordinal", "count", "index", "find"}
+IMMUTABLE_EXTERNAL = ("datetime.", "re.compile", "posixpath.", "os.path.", "os.fspath", "math.", "operator.index", "fractions.", "decimal.", "hashlib.", "numpy.datetime64", "numpy.timedelta64", "numpy.dtype",
+                      "numpy.int", "numpy.uint", "numpy.float", "dateutil.parser.")
+MUTABLE_CTORS = {"dict", "list", "set", "bytearray", "OrderedDict", "defaultdict", "Counter", "deque", "ChainMap"}
+MUTABLE_METHODS = {"copy", "split", "rsplit", "splitlines", "groupdict", "items", "keys", "values", "tolist", "astype", "reshape"}
+PART_METHODS = {"partition", "rpartition", "split", "rsplit", "groups", "splitlines"}
+
+
+def _result_kind(repo, g, fi, e, depth=0, seen=None):
+    """what a function hands out, as far as sharing it between calls goes: 'immutable' (text, numbers, datetimes, tuples of such),
+    'data' (a dict / list / set / array / Group / Variable / Array: sharing one between calls aliases what callers own) or None"""
+    seen = seen if seen is not None else set()
+    if e is None or isinstance(e, (ast.Constant, ast.JoinedStr, ast.Compare)):
+        return "immutable"
+    if isinstance(e, (ast.Dict, ast.List, ast.Set, ast.ListComp, ast.DictComp, ast.SetComp, ast.GeneratorExp)):
+        return "data"
+    if isinstance(e, ast.Tuple):
+        kinds = {_result_kind(repo, g, fi, x, depth, seen) for x in e.elts}
+        return "data" if "data" in kinds else None if None in kinds else "immutable"
+    if isinstance(e, ast.IfExp):
+        kinds = {_result_kind(repo, g, fi, e.body, depth, seen), _result_kind(repo, g, fi, e.orelse, depth, seen)}
+        return "data" if "data" in kinds else None if None in kinds else "immutable"
+    if isinstance(e, ast.BoolOp):
+        kinds = {_result_kind(repo, g, fi, x, depth, seen) for x in e.values}
+        return "data" if "data" in kinds else None if None in kinds else "immutable"
+    if isinstance(e, ast.UnaryOp):
+        return "immutable" if isinstance(e.op, ast.Not) else _result_kind(repo, g, fi, e.operand, depth, seen)
+    if isinstance(e, ast.BinOp):
+        kinds = {_result_kind(repo, g, fi, e.left, depth, seen), _result_kind(repo, g, fi, e.right, depth, seen)}
+        if isinstance(e.op, ast.BitOr) and "data" in kinds:
+            return "data"
+        return "immutable" if kinds == {"immutable"} else None
+    if isinstance(e, ast.Subscript):
+        v = e.value
+        if isinstance(v, ast.Call) and isinstance(v.func, ast.Attribute) and v.func.attr in PART_METHODS and not isinstance(e.slice, ast.Slice):
+            return "immutable"  # one piece of a split text
+        return None
+    if isinstance(e, ast.Name):
+        if (fi.key, e.id) in seen:
+            return None
+        seen.add((fi.key, e.id))
+        if e.id in fi.params:
+            return None
+        vals = []
+        for n in fi.own_nodes():
+            if isinstance(n, ast.Assign) and any(isinstance(t, ast.Name) and t.id == e.id for t in n.targets):
+                vals.append(n.value)
+            elif isinstance(n, (ast.AugAssign, ast.AnnAssign)) and isinstance(n.target, ast.Name) and n.target.id == e.id:
+                vals.append(n.value)
+            elif isinstance(n, (ast.For, ast.comprehension)) and any(isinstance(x, ast.Name) and x.id == e.id for x in ast.walk(n.target)):
+                return None
+        if not vals:
+            return None
+        kinds = {_result_kind(repo, g, fi, x, depth, seen) for x in vals}
+        return "data" if "data" in kinds else None if None in kinds else "immutable"
+    if isinstance(e, ast.Call):
+        f = e.func
+        if isinstance(f, ast.Name):
+            r = repo.resolve_name(fi, f.id)
+            if r.kind == "external":
+                nm = r.fq.rsplit(".", 1)[-1]
+                if r.fq.startswith("builtins.") and nm in IMMUTABLE_CTORS:
+                    return "immutable"
+                if nm in MUTABLE_CTORS or r.fq.startswith(("numpy.array", "numpy.asarray", "numpy.frombuffer", "numpy.stack", "numpy.empty", "numpy.zeros", "copy.")):
+                    return "data"
+                if r.fq.startswith(IMMUTABLE_EXTERNAL):
+                    return "immutable"
+                return None
+            if r.kind == "class":
+                return "data" if r.node.name in ("Group", "Variable", "Array") else None
+        if isinstance(f, ast.Attribute):
+            r = repo.resolve_expr(fi, f)
+            if r.kind == "external":
+                if r.fq.startswith(IMMUTABLE_EXTERNAL):
+                    return "immutable" if not r.fq.startswith("hashlib.") else None
+                if r.fq.startswith(("numpy.", "copy.", "json.loads", "json.load")):
+                    return "data"
+                return None
+            if r.kind == "class":
+                return "data" if r.node.name in ("Group", "Variable", "Array") else None
+            if r.kind != "func":
+                if f.attr in IMMUTABLE_METHODS:
+                    return "immutable"
+                if f.attr in MUTABLE_METHODS:
+                    return "data"
+                return None
+        # a function of the package: what it returns
+        if depth >= 4:
+            return None
+        from ..interproc import resolve_callees
+        try:
+            callees = resolve_callees(repo, fi, f)
+        except Exception:
+            return None
+        if not callees:
+            return None
+        kinds = set()
+        for c in callees:
+            kinds.add(_returns_kind(repo, g, c.func, depth + 1, seen))
+        return "data" if "data" in kinds else None if None in kinds else "immutable"
+    return None
+
+
+def _returns_kind(repo, g, fi, depth=0, seen=None):
+    if isinstance(fi.node, ast.Lambda):
+        return _result_kind(repo, g, fi, fi.node.body, depth, seen)
+    rets = [n for n in fi.own_nodes() if isinstance(n, ast.Return)]
+    if any(isinstance(n, (ast.Yield, ast.YieldFrom)) for n in fi.own_nodes()):
+        return "data"  # a generator object: consumed by the first caller
+    if not rets:
+        return "immutable"
+    kinds = {_result_kind(repo, g, fi, r.value, depth, seen) for r in rets}
+    return "data" if "data" in kinds else None if None in kinds else "immutable"
+
+
+def memo_verdict(op, fi, what):
+    """a memoised function on the open path -> ('safe' | 'unsafe' | 'unknown', why).  Safe: nothing it reaches reads the file system or
+    module state that is written at call time, and what it returns is immutable.  Unsafe: it reads files (the memo never sees them
+    change) or hands the same dict / list / array / group to every caller"""
+    repo, g = op.repo, op.g
+    # what the memoised function certainly calls: plain names and module attributes resolved to functions of the package (the by-name
+    # method edges of the call graph over-approximate; a method called on an unknown receiver shows up as an effect of the caller)
+    from ..interproc import resolve_callees
+    reach, todo = {fi.key: fi}, [fi]
+    while todo:
+        f1 = todo.pop()
+        for n in f1.own_nodes():
+            if isinstance(n, ast.Call) and (isinstance(n.func, ast.Name) or (isinstance(n.func, ast.Attribute) and repo.resolve_expr(f1, n.func.value).kind == "module")):
+                try:
+                    cs = resolve_callees(repo, f1, n.func)
+                except Exception:
+                    cs = []
+                for c in cs:
+                    if c.func.key not in reach:
+                        reach[c.func.key] = c.func
+                        todo.append(c.func)
+    for k in sorted(reach):
+        f2 = reach[k]
+        for ef in effects.scan(repo, f2):
+            if ef.kind in ("fs_read", "fs_open", "fs_write", "mapper_read", "mapper_probe"):
+                return "unsafe", f"{what} reaches {ef.where}: {short(ef.node, 50)} - the answer is read from storage once and kept for the life of the process: a later open sees what was there at the first call"
+        for kind, root, target, node in effects.stores(repo, f2):
+            if kind == "global_store":
+                return "unknown", f"{what} reaches {f2.key}, which stores into module-level state"
+    # names of module-level mutable objects read by the memoised function itself
+    if "self" in fi.params[:1] and "cached_property" not in what:
+        return "unknown", f"{what} is a method: the memo is keyed by the instance, whose fields can change"
+    kind = _returns_kind(repo, g, fi)
+    if kind == "immutable":
+        return "safe", f"{what}: reads nothing but its arguments, returns an immutable value"
+    if kind == "data":
+        return "unsafe", f"{what} returns a dict / list / array / group that it builds: every caller with the same arguments gets the same object, what one open (or its user) changes in it is there for the next"
+    return "unknown", f"{what}: whether what it returns can be shared between calls is not decided"
+
+
 def w3(chk, op):
     repo = op.repo
     bad = []
@@ -306,7 +463,7 @@ def w3(chk, op):
         if fi.module.name.endswith(".testing"):
             continue
         for d in effects.memo_decorators(fi):
-            memo.append(f"{fi.key} @{d}")
+            memo.append((fi, f"{fi.key} @{d}"))
         for kind, root, target, node in effects.stores(repo, fi):
             if kind == "global_store":
                 bad.append(f"{fi.key}: global {root} = ...")
@@ -340,11 +497,33 @@ def w3(chk, op):
                         f = n.func.func if isinstance(n.func, ast.Call) else n.func
                         nm = f.attr if isinstance(f, ast.Attribute) else getattr(f, "id", None)
                         if nm in effects.MEMO_DECORATORS:
-                            memo.append(f"{m.name}:{name} = {short(e, 50)}")
+                            inner = n.args[0] if n.args and isinstance(n.func, ast.Call) or (n.args and not isinstance(n.func, ast.Call) and nm in ("cache",)) else (n.args[0] if n.args else None)
+                            target = None
+                            if isinstance(inner, ast.Name):
+                                target = op.g.funcs.get(f"{m.name}:{inner.id}")
+                            memo.append((target, f"{m.name}:{name} = {short(e, 50)}"))
     chk.require(not bad, "C10-W3", "open path", f"no function reachable from open_alos2 ({len(op.reach)}) stores into module-level state",
                 f"module-level state is written on the open path: {bad[:3]}", key="module-state")
-    chk.require(not memo, "C10-W3", "open path", "no memoising decorator on the open path",
-                f"memoised functions: {memo[:3]} - a later open returns an earlier result (stale records_per_chunk / cache state)", key="memoised")
+    undecided = []
+    seen_memo = set()
+    for target, what in memo:
+        if what in seen_memo:
+            continue
+        seen_memo.add(what)
+        if target is None:
+            undecided.append(f"{what}: the memoised callable is not a function of the package the analysis can look into")
+            continue
+        verdict, why = memo_verdict(op, target, what)
+        if verdict == "unsafe":
+            chk.fail("C10-W3", "open path", f"memoised function: {why}", key="memoised")
+        elif verdict == "unknown":
+            undecided.append(why)
+        else:
+            chk.ok("C10-W3", "open path", why)
+    if not memo:
+        chk.ok("C10-W3", "open path", "no memoising decorator on the open path")
+    if undecided:
+        raise AnalysisError(f"C10-W3: {undecided[0]}" + (f" (and {len(undecided) - 1} more)" if len(undecided) > 1 else ""))
 
 
 def _runs_at_import(repo, fn):
